@@ -96,13 +96,18 @@ def deviation(prog, si, open_keys=None):
     fr, outer = structure(prog, si)
     frames = ([fr] if fr else []) + list(outer)
     for f in frames:
+        # two tests of the SAME variable in one && chain
+        if f["branch"] != "after" and any(len({a["v"] for a in c}) < len(c) for c in f["conds"]) \
+                and (open_keys is None or "Dev_SameVarConjunction" in open_keys):
+            return "Dev_SameVarConjunction"
+    for f in frames:
         if f["branch"] in ("else", "elsif", "after") and (f["nested_in"] - {f["branch"]}) \
                 and (open_keys is None or "Dev_SharedIfUnlessInstance" in open_keys):
             return "Dev_SharedIfUnlessInstance"
     for f in frames:
         if f["kind"] == "unless" and f["branch"] == "then" and len(f["conds"][0]) > 1:
             return "Dev_AndElseComplement"
-        if f["kind"] == "if" and f["branch"] in ("else", "elsif", "after"):
+        if f["kind"] == "if" and f["branch"] in ("else", "elsif"):
             earlier = f["conds"][:-1] if f["branch"] == "elsif" else f["conds"]
             if any(len(c) > 1 for c in earlier):
                 return "Dev_AndElseComplement"
